@@ -126,6 +126,7 @@ def direct_differential(run, tier):
         'bang-more-answer-removal-readd': [('C', 1), ('H', 1), ('P', 1, 'bang'), ('X', 1, 'login.svc', 'cur', 'MORE'), ('P', 1, 'x'), ('RL', 'none.conf'), ('RL', 'other.conf'),
                                            ('X', 1, 'ghost.svc', 'cur', 'OKA'), ('X', 1, 'login.svc', 'cur', 'OKA'), ('X', 1, 'drone.svc', 'cur', 'OK')],
         'reload-twice-then-login': [('C', 1), ('P', 1, 'x'), ('RL', 'none.conf'), ('RL', 'orig.conf'), ('H', 1), ('X', 1, 'login.svc', 'cur', 'OKA'), ('X', 1, 'drone.svc', 'cur', 'OK')],
+        'again-then-retry': [('C', 1), ('P', 1, 'x'), ('X', 1, 'login.svc', 'cur', 'AGAIN'), ('P', 1, 'x'), ('X', 1, 'login.svc', 'cur', 'OKA'), ('H', 1), ('X', 1, 'drone.svc', 'cur', 'OK')],
         'plain-more-round': [('C', 1), ('H', 1), ('P', 1, 'x'), ('X', 1, 'login.svc', 'cur', 'MORE'), ('P', 1, 'nobang'), ('X', 1, 'login.svc', 'cur', 'OKA'), ('X', 1, 'drone.svc', 'cur', 'NO')],
     }
     Y = {
@@ -134,9 +135,10 @@ def direct_differential(run, tier):
         'hurried': [('C', 2), ('H', 2)],
         'challenged': [('C', 2), ('P', 2, 'bang'), ('X', 2, 'login.svc', 'cur', 'MORE')],
         'gone': [('C', 2), ('P', 2, 'x'), ('D', 2)],
+        'unlinked': [('C', 2), ('P', 2, 'x'), ('X', 2, 'login.svc', 'cur', 'UNL')],
     }
     if tier == 'quick':
-        Y = {k: Y[k] for k in ('pending-login', 'answered-login', 'challenged')}
+        Y = {k: Y[k] for k in ('pending-login', 'answered-login', 'challenged', 'unlinked')}
 
     def concrete(srv, syms):
         ctx = {'cur': {}, 'old': {}, 'serial': 0}
